@@ -14,3 +14,7 @@ check("C03", "exhaustive modifier chains of length <= 2 x seed values + Hypothes
       "Every chain of length 0..2 over all 33 modifier names on 50 seed values (field and keyword items) plus sampled longer chains and strings over the special alphabet, compared (values with type and content, linking, negation, or rejection with a SigmaError) with a reference table that shares no code with pySigma.",
       "Trusted: vf/ref/modifiers.py as the specification; ambiguous adjacencies excluded and counted.",
       "DESIGN.md section 3, C03")
+check("C07", "exhaustive single-value mutation of valid documents + Hypothesis double mutations and arbitrary YAML data; differential strict vs collecting loaders",
+      "Every path of 8 valid seed documents (rule, 6 correlation rules, filter) and 3 multi-document collections is deleted or replaced by each of 45 wrongly typed / out-of-range values, through from_dict, from_yaml and SigmaCollection.from_dicts/from_yaml, in strict and collecting mode; random double mutations and arbitrary nested data on top. Failures are bucketed by (exception type, innermost sigma/ frame) so each root cause is reported once.",
+      "Domain: parsed YAML data with string keys; text-level duplicate keys are the YAML layer's rejection.",
+      "DESIGN.md section 3, C07")
